@@ -174,7 +174,74 @@ def run(ctx):
         ctx.violation(key, "round trip through the Reader fails: %s" % key,
                       {"kind": "c02-read", "write_case": {k: v for k, v in w.items() if k != "save"}, "read_case": {"cfg": c["cfg"]},
                        "observed": slim, "rejected_event": json.loads(rej2[0]["line"])})
+    composed_sources(ctx, b, d, rnd, wcases, wrecs)
     ctx.assumptions += ["inputs up to 3 blocks + 8 bytes; 1 MiB / 4 MiB / legacy 8 MiB blocks on a share of the histories"]
+
+
+def composed_sources(ctx, b, d, rnd, wcases, wrecs):
+    """Sources made of several pieces around the Writer's frames: skippable frames first, concatenated legacy frames,
+    a kernel-style trailer, bytes after the frame.  Judged by LZ4Frame_Trace_C02 (CompleteOK)."""
+    q = ctx.tier == "quick"
+    small = [c for c in wcases if wrecs[c["id"]]["sinkLen"] <= 200000 and wrecs[c["id"]]["frames"][0]["status"] == "ok"]
+    modern = [c for c in small if not c["opts"]["legacy"]]
+    legacy = [c for c in small if c["opts"]["legacy"]]
+    cases = []
+
+    def add(chunks, what):
+        conc = rnd.choice([1, 1, 2, 4])
+        cfg = {"conc": conc, "mode": rnd.choice(["read", "writeto"]), "bufs": [rnd.choice([7, 4096, 70000, 300000])]}
+        cases.append({"id": len(cases) + 1, "chunks": chunks, "cfg": cfg, "tag": {"what": what}})
+
+    def skip(n):
+        return {"bytes": [0x50 + rnd.randrange(16), 0x2A, 0x4D, 0x18, n & 255, (n >> 8) & 255, 0, 0] + [rnd.randrange(256) for _ in range(n)]}
+    for c in rnd.sample(modern, min(len(modern), 25 if q else 300)):
+        f = {"file": c["save"]}
+        add([skip(rnd.choice([0, 1, 7, 300]))] + [f], "skip+frame")
+        add([skip(0), skip(5), skip(rnd.choice([0, 64]))] + [f], "skip*3+frame")
+        add([f, {"bytes": [rnd.randrange(256) for _ in range(rnd.choice([1, 4, 9, 40]))]}], "frame+trailing")
+        add([f, f], "frame+frame")
+    for c in rnd.sample(legacy, min(len(legacy), 6 if q else 60)):
+        f = {"file": c["save"]}
+        n = c["input"]["len"]
+        add([f, f], "legacy+legacy")
+        if n:
+            add([f, {"bytes": [n & 255, (n >> 8) & 255, (n >> 16) & 255, (n >> 24) & 255]}], "legacy+kernel-trailer")
+        add([skip(3), f], "skip+legacy")
+    if not cases:
+        return
+    recs, faults = fl.shard_run(b, "frame-read", cases, d, "comp", extra=("--watchdog", "120s"))
+    if faults:
+        raise vlib.MachineryFault("frame-read failed: %s" % faults[0]["stderr"][-800:])
+    ctx.evaluations += len(recs)
+    tp = os.path.join(d, "composed.ndjson")
+    with open(tp, "w") as f:
+        for c in cases:
+            e = dict(recs[c["id"]])
+            for x in ("errtext", "log", "cfg", "tag", "extraErr"):
+                e.pop(x, None)
+            f.write(json.dumps(e, separators=(",", ":")) + "\n")
+    acc, rej = vlib.validate_trace(ctx, "LZ4Frame_Trace", tp, cfg="LZ4Frame_Trace_C02", timeout=1800, max_reject=4)
+    by = {c["id"]: c for c in cases}
+    for rj in rej:
+        rec = json.loads(rj["line"])
+        c = by[rec["case"]]
+        key = "C02:composed:%s:%s:conc=%s:outcome=%s/%s" % (c["tag"]["what"], c["cfg"]["mode"], "1" if c["cfg"]["conc"] == 1 else ">1", rec["outcome"], rec["err"])
+        if any(v[0] == key for v in ctx.violations):
+            continue
+        rr, _ = fl.shard_run(b, "frame-read", [c], d, "comp-again", nshards=1, extra=("--watchdog", "120s"))
+        e = dict(rr[c["id"]])
+        for x in ("errtext", "log", "cfg", "tag", "extraErr"):
+            e.pop(x, None)
+        t2 = os.path.join(d, "comp-again.ndjson")
+        vlib.write_ndjson(t2, [e])
+        sub = vlib.Ctx(ctx.prop, ctx.tier, ctx.seed)
+        a2, rej2 = vlib.validate_trace(sub, "LZ4Frame_Trace", t2, cfg="LZ4Frame_Trace_C02", shards=1)
+        if not rej2:
+            ctx.unreproducible("%s" % key)
+            continue
+        obs = {k: v for k, v in e.items() if k not in ("bytes", "delivered", "content")}
+        ctx.violation(key, "a source the frame specification accepts is not read as it defines: %s" % key,
+                      {"kind": "c02-composed", "case": {"cfg": c["cfg"], "tag": c["tag"]}, "observed": obs})
 
 
 def confirm_write(ctx, b, d, case, key):
